@@ -76,6 +76,7 @@ var forms = []string{
 	"goto-label-return",        // if c { goto done }; return lit0; done: return lit1
 	"defer-and-closure-noise",  // defer func() { _ = func() int { return 9 }() }(); return lit1
 	"shadowing-local-consts",   // const w = "f<i>"; const n = 10+i; return w + w, n * 2: same text, another meaning per function
+	"own-call-then-forward",    // if c { return ..., dep.Fail() }; then forward / call-assign fK: caller and callee share a callee
 	"variadic-spread-call",     // return ..., joinAll(errList...)      ([]error spread into ...error)
 	"variadic-listed-call",     // return ..., joinAll(errSentinel, errOther)
 	"named-compound-assign",    // named only: s, err = lits; n <<= uint8(3) style compound update of a local, bare return
@@ -113,6 +114,20 @@ func (p Prog) body(i int) (src string, want [][]string) {
 		return "if cond {\n\t\t" + ret(0) + "\n\t}\n\t" + ret(1), wantOf(0, 1)
 	case "switch-returns":
 		return "switch {\n\tcase cond:\n\t\t" + ret(0) + "\n\tdefault:\n\t\t" + ret(1) + "\n\t}", wantOf(0, 1)
+	case "own-call-then-forward":
+		first := ""
+		if ts[len(ts)-1] == "error" {
+			exprs := zeroExprs(sh, 0)
+			exprs[len(exprs)-1] = "dep.Fail()"
+			first = "if cond {\n\t\treturn " + strings.Join(exprs, ", ") + "\n\t}\n\t"
+		} else {
+			first = "if cond {\n\t\treturn dep.Name()\n\t}\n\t"
+		}
+		q := p
+		q.Forms = append([]int{}, p.Forms...)
+		q.Forms[i] = 3 // "forward-call" (falls back to call-assign-return when the shapes differ)
+		rest, _ := q.body(i)
+		return first + rest, nil
 	case "forward-call":
 		if sameShape {
 			return fmt.Sprintf("return f%d()", k), nil
@@ -344,12 +359,15 @@ func analyseProgs(c *core.Ctx, progs []Prog, progress string, startAt int) {
 			c.Internal("second load: %v", err)
 			return
 		}
-		for i, p := range progs {
+		// ... and asked in the REVERSE order (last package first, last function first): the answer for a
+		// function must not depend on which other functions were asked about before
+		for i := len(progs) - 1; i >= 0; i-- {
+			p := progs[i]
 			pkg := u2.Package(fmt.Sprintf("%s/p/k%05d", modPath, i))
 			if pkg == nil {
 				continue
 			}
-			for fi := range p.Shapes {
+			for fi := len(p.Shapes) - 1; fi >= 0; fi-- {
 				id := fmt.Sprintf("f%d of {%s}", fi, p)
 				want, ok := first[id]
 				fn, _ := pkg.Pkg().Scope().Lookup(fmt.Sprintf("f%d", fi)).(*types.Func)
@@ -372,7 +390,7 @@ func analyseProgs(c *core.Ctx, progs []Prog, progress string, startAt int) {
 				c.Trans(1)
 				if got != want {
 					pp := p
-					c.Fail("", Case{Corpus: "synthetic", Unit: id, Prog: &pp}, "ResultsOf(%s) = %s in a second universe loaded in the same process, %s in the first", id, got, want)
+					c.Fail("", Case{Corpus: "synthetic", Unit: id, Prog: &pp}, "ResultsOf(%s) = %s in a second universe loaded in the same process and queried in reverse order, %s in the first (queried in source order)", id, got, want)
 				}
 			}
 		}
